@@ -5,7 +5,7 @@ use crate::gen::sup_primaries;
 use crate::oracle::{self, cp_from_name, cp_name, SUP_CP};
 use proptest::prelude::*;
 use serde_json::{json, Value};
-use yuvxyb::{ColorPrimaries as CP, LinearRgb, Rgb, TransferCharacteristic as TC};
+use yuvxyb::{ColorPrimaries as CP, LinearRgb, MatrixCoefficients as MC, Rgb, TransferCharacteristic as TC, Yuv};
 
 #[derive(Debug, Clone)]
 pub struct Case {
@@ -15,6 +15,32 @@ pub struct Case {
     pub w: usize,
     pub h: usize,
     pub px: Px,
+    /// unrelated YUV decode / encode calls (matrix derived from these primaries) made just before the conversion
+    pub before: Vec<(MC, CP)>,
+}
+
+/// matrix coefficients whose constants the library derives from the colour primaries
+pub const DERIVED_MC: [MC; 5] = [MC::Identity, MC::BT2020ConstantLuminance, MC::ChromaticityDerivedNonConstantLuminance, MC::ChromaticityDerivedConstantLuminance, MC::ICtCp];
+
+/// What a program typically does around a primaries conversion: decode a YUV picture and encode one,
+/// with a matrix derived from primaries `p`. Results and errors are ignored here (C01/C02/C14 judge
+/// them); C06 only requires that the primaries conversions made afterwards are unaffected.
+pub fn yuv_calls(m: MC, p: CP) {
+    {
+        let mut log = YUV_CALLS.lock().unwrap_or_else(|e| e.into_inner());
+        if !log.contains(&(m, p)) {
+            log.push((m, p));
+        }
+    }
+    let _ = catch(|| {
+        let cfg = crate::api::cfg(m, TC::BT1886, p, 8, false, (0, 0));
+        let codes = [[16u16, 128, 128], [235, 128, 128], [81, 90, 240], [145, 54, 34]];
+        if let Ok(y) = Yuv::<u8>::new(crate::api::frame444::<u8>(&codes, 2, 2, 0, 0), cfg) {
+            if let Ok(rgb) = Rgb::try_from(&y) {
+                let _ = Yuv::<u8>::try_from((rgb, cfg));
+            }
+        }
+    });
 }
 #[derive(Debug, Clone)]
 pub enum Px {
@@ -79,14 +105,47 @@ impl Case {
         }
     }
     fn json_with(&self, px: &[[f32; 3]], w: usize, h: usize) -> Value {
-        json!({"prop":"C06","primaries":cp_name(self.p),"to_709":self.to_709,"w":w,"h":h,"pixels": px.iter().map(|p| px2j(*p)).collect::<Vec<_>>()})
+        // the distinct YUV calls this process has made so far, in order of first occurrence (state that outlives a
+        // call is process-wide, so the replay file carries the history, not only this case's own calls)
+        let before: Vec<Value> = YUV_CALLS.lock().unwrap_or_else(|e| e.into_inner()).iter().map(|(m, p)| json!([oracle::mc_name(*m), cp_name(*p)])).collect();
+        json!({"prop":"C06","primaries":cp_name(self.p),"to_709":self.to_709,"w":w,"h":h,"pixels": px.iter().map(|p| px2j(*p)).collect::<Vec<_>>(), "after_yuv_calls": before})
     }
 }
 
 pub fn strategy() -> BoxedStrategy<Case> {
     (sup_primaries(), any::<bool>(), 0u8..7, any::<u64>(), 1usize..=32, 1usize..=8)
-        .prop_map(|(p, to_709, stratum, seed, w, h)| Case { p, to_709, w, h, px: Px::Seeded { stratum, seed } })
+        .prop_map(|(p, to_709, stratum, seed, w, h)| {
+            // one case in five is preceded by YUV calls with a primaries-derived matrix (same or other primaries)
+            let mut before = Vec::new();
+            if seed % 5 == 3 {
+                let mut e = Expand(seed ^ 0xB4);
+                for _ in 0..1 + e.below(2) {
+                    let q = if e.below(2) == 0 { p } else { *e.pick(&SUP_CP) };
+                    before.push((*e.pick(&DERIVED_MC), q));
+                }
+            }
+            Case { p, to_709, w, h, px: Px::Seeded { stratum, seed }, before }
+        })
         .boxed()
+}
+
+/// the distinct YUV calls made by this process, in order of first occurrence (recorded so that a violation's replay
+/// file reproduces the history in a fresh process)
+static YUV_CALLS: std::sync::Mutex<Vec<(MC, CP)>> = std::sync::Mutex::new(Vec::new());
+
+/// For a seed-chosen half of the primaries the first use in this process is a YUV call with a matrix derived
+/// from them; for the other half it is the primaries conversion itself (the generated cases interleave both later).
+fn prelude(seed: u64) {
+    let mut e = Expand(seed ^ 0x06_0FF);
+    let mut calls = Vec::new();
+    for p in SUP_CP.iter() {
+        if e.below(2) == 0 {
+            calls.push((*e.pick(&DERIVED_MC), *p));
+        }
+    }
+    for (m, p) in &calls {
+        yuv_calls(*m, *p);
+    }
 }
 
 pub fn lib_convert(p: CP, to_709: bool, px: &[[f32; 3]], w: usize, h: usize) -> Result<Vec<[f32; 3]>, String> {
@@ -111,6 +170,12 @@ pub fn lib_convert(p: CP, to_709: bool, px: &[[f32; 3]], w: usize, h: usize) -> 
 }
 
 pub fn check(case: &Case, st: &mut Stats) -> Result<(), Violation> {
+    for (m, p) in &case.before {
+        yuv_calls(*m, *p);
+    }
+    if !case.before.is_empty() {
+        st.class("preceded_by_yuv_calls", 1);
+    }
     let px = case.pixels();
     let sig = format!("C06:primaries:{}:{}", cp_name(case.p), if case.to_709 { "to709" } else { "from709" });
     let fail = |msg: String, p: &[[f32; 3]], w: usize, h: usize| Violation { signature: sig.clone(), message: msg, case: case.json_with(p, w, h) };
@@ -180,6 +245,8 @@ pub fn check(case: &Case, st: &mut Stats) -> Result<(), Violation> {
 }
 
 pub fn run(ctx: &Ctx, st: &mut Stats) -> Vec<Violation> {
+    prelude(ctx.seed);
+    st.class("primaries_first_used_by_a_yuv_call", YUV_CALLS.lock().map(|v| v.len() as u64).unwrap_or(0));
     let mut v = run_proptest(ctx, st, "random", ctx.cases(60_000, 6_000_000), strategy, check);
     if !v.is_empty() {
         return v;
@@ -190,7 +257,7 @@ pub fn run(ctx: &Ctx, st: &mut Stats) -> Vec<Violation> {
     v.extend(par_sweep(ctx, st, sizes.len() as u64 * 2, |lo, hi, st| {
         for j in lo..hi {
             let (w, h) = sizes[(j / 2) as usize];
-            let case = Case { p: SUP_CP[1 + (j as usize * 3) % 10], to_709: j % 2 == 0, w, h, px: Px::Seeded { stratum: [0u8, 6][(j % 2) as usize], seed: mix64(seed0 ^ (j << 8) ^ 0x06) } };
+            let case = Case { p: SUP_CP[1 + (j as usize * 3) % 10], to_709: j % 2 == 0, w, h, px: Px::Seeded { stratum: [0u8, 6][(j % 2) as usize], seed: mix64(seed0 ^ (j << 8) ^ 0x06) }, before: vec![] };
             let mut local = Stats::new();
             local.sample_budget = 0;
             if let Err(v) = check(&case, &mut local) {
@@ -222,7 +289,7 @@ pub fn run(ctx: &Ctx, st: &mut Stats) -> Vec<Violation> {
             }
             px.push([1.0, 1.0, 1.0]);
             let n = px.len();
-            let case = Case { p, to_709, w: n, h: 1, px: Px::Explicit(px) };
+            let case = Case { p, to_709, w: n, h: 1, px: Px::Explicit(px), before: vec![] };
             let mut local = Stats::new();
             local.sample_budget = 0;
             if let Err(v) = check(&case, &mut local) {
@@ -249,8 +316,13 @@ pub fn replay(v: &Value) -> Result<(), String> {
         w: v.get("w").and_then(|x| x.as_u64()).unwrap_or(px.len() as u64) as usize,
         h: v.get("h").and_then(|x| x.as_u64()).unwrap_or(1) as usize,
         px: Px::Explicit(px),
+        before: v
+            .get("after_yuv_calls")
+            .and_then(|a| a.as_array())
+            .map(|a| a.iter().filter_map(|c| Some((oracle::mc_from_name(c.get(0)?.as_str()?)?, cp_from_name(c.get(1)?.as_str()?)?))).collect())
+            .unwrap_or_default(),
     };
     check(&case, &mut Stats::new()).map_err(|v| v.message)
 }
 
-pub const RULE: &str = "cases = (primaries in 11 supported, direction to/from BT.709, w x h image of linear pixels of [-0.5,2]^3 from 7 strata: uniform, unit cube, single axis, greys, near-neutral, lattice, white/near-white; a third of the images with related neighbours incl. fed-back pixels and slow ramps) generated by proptest, plus an enumerated lattice per primaries and direction; oracle = M_out^-1 * Bradford * M_in built in f64 from the H.273 chromaticities (tol 1e-5*max(1,|v|)), white -> white within 1e-5, there-and-back within 1e-5, BT.709<->BT.709 bitwise; non-trivial = non-BT.709 primaries and an image containing a non-grey pixel; distinct = by hash of (primaries, direction, pixel bits)";
+pub const RULE: &str = "cases = (primaries in 11 supported, direction to/from BT.709, w x h image of linear pixels of [-0.5,2]^3 from 7 strata: uniform, unit cube, single axis, greys, near-neutral, lattice, white/near-white; a third of the images with related neighbours incl. fed-back pixels and slow ramps; call history: for a seed-chosen half of the primaries the first use in the process is a YUV decode/encode with a matrix derived from them, and one case in five is directly preceded by 1-2 such YUV calls) generated by proptest, plus an enumerated lattice per primaries and direction; oracle = M_out^-1 * Bradford * M_in built in f64 from the H.273 chromaticities (tol 1e-5*max(1,|v|)), white -> white within 1e-5, there-and-back within 1e-5, BT.709<->BT.709 bitwise; non-trivial = non-BT.709 primaries and an image containing a non-grey pixel; distinct = by hash of (primaries, direction, pixel bits)";
